@@ -166,6 +166,8 @@ void
 Ipc::TypedMsgHdr::getRaw(void *rawBuf, size_t rawSize) const
 {
     if (rawSize > 0) {
+        // data.size of a received message comes from the sender; do not trust it
+        Must(data.size <= sizeof(data.raw));
         Must(rawSize <= data.size - offset);
         memcpy(rawBuf, data.raw + offset, rawSize);
         offset += rawSize;
